@@ -646,6 +646,12 @@ func (c *wsConn) removeCount(s *Subscription, direct bool, sent bool, count int,
 	}
 
 	if direct {
+		// Never release more direct subscriptions than are held. The count
+		// may already have been released by unsubscribeDirect, in case
+		// access was denied while the request was pending.
+		if count > s.direct {
+			count = s.direct
+		}
 		s.direct -= count
 	} else {
 		s.indirect -= count
